@@ -12,6 +12,9 @@ import (
 const zzAllKinds = zzKString | zzKNumber | zzKInteger | zzKBoolean | zzKArray | zzKObject |
 	zzKEnumString | zzKEnumInt | zzKEnumMixed | zzKAny | zzKFormat
 
+// zzEveryKind: every kind of the grammar (the relational harnesses draw from all of them).
+const zzEveryKind = zzAllKinds | zzKMap | zzKEnumStrNull | zzKNull | zzKObjAP
+
 // zzGenerate runs the real pipeline (New -> addFile -> generateRootType -> Sources) on a
 // schema whose root object has the single property x.
 func zzGenerate(pt *schemas.Type, required bool, viaRef bool, cfg Config, extraDefs ...map[string]*schemas.Type) (src string, rootType string, err error) {
